@@ -25,7 +25,8 @@ Inductive q0 :=
 | Z0Var (x : bytes)
 | Z0Array (q : q0)                            (* [q] *)
 | Z0Reduce (src : q0) (x : bytes) (init upd : q0)    (* reduce src as $x (init; upd) *)
-| Z0Alt (a b : q0).                            (* a // b *)
+| Z0Alt (a b : q0)                             (* a // b *)
+| Z0Foreach (src : q0) (x : bytes) (init upd : q0) (ext : option q0).   (* foreach src as $x (init; upd [; ext]) *)
 
 Definition paren (q : query) : term := Term (TQuery q) [].
 
@@ -52,6 +53,7 @@ Fixpoint emb (q : q0) : query :=
   | Z0Array q => q_term (TArray (Some (emb q)))
   | Z0Reduce src x init upd => q_term (TReduce (emb src) (Pattern x [] []) (emb init) (emb upd))
   | Z0Alt a b => q_bin (emb a) OpAlt (emb b)
+  | Z0Foreach src x init upd ext => q_term (TForeach (emb src) (Pattern x [] []) (emb init) (emb upd) (option_map emb ext))
   end.
 
 (* eager list semantics, clause by clause as coq/c01vm/Den.v *)
@@ -102,6 +104,30 @@ Fixpoint reduce_fold0 (upd : jv -> jv -> result) (ws : list jv) (acc : jv) : jv 
               end
   end.
 
+(* foreach, as coq/c01vm/Den.v: every update output becomes the state and its extraction is emitted *)
+Fixpoint foreach_upd0 (ext : jv -> result) (us : list jv) (acc : jv) : result * jv :=
+  match us with
+  | [] => (([], None), acc)
+  | u :: r => match ext u with
+              | (os, None) => let '((os', x), acc') := foreach_upd0 ext r u in ((os ++ os', x), acc')
+              | (os, Some x) => ((os, Some x), u)
+              end
+  end.
+Fixpoint foreach_fold0 (upd : jv -> jv -> result) (ext : jv -> jv -> result) (ws : list jv) (acc : jv) : result :=
+  match ws with
+  | [] => ([], None)
+  | w :: r =>
+      let '(us, ux) := upd w acc in
+      match foreach_upd0 (ext w) us acc with
+      | ((os, Some x), _) => (os, Some x)
+      | ((os, None), acc') =>
+          match ux with
+          | Some x => (os, Some x)
+          | None => rseq (os, None) (foreach_fold0 upd ext r acc')
+          end
+      end
+  end.
+
 Fixpoint den0 (q : q0) (rho : env) (v : jv) : result :=
   match q with
   | Z0Id => ([v], None)
@@ -150,6 +176,13 @@ Fixpoint den0 (q : q0) (rho : env) (v : jv) : result :=
       | Some e => (ts, Some e)                (* an error of the left operand propagates *)
       | None => match ts with [] => den0 b rho v | _ => (ts, None) end
       end
+  | Z0Foreach src x init upd ext =>
+      rbind (den0 init rho v) (fun s0 =>
+        let '(ws, sx) := den0 src rho v in
+        rseq (foreach_fold0 (fun w acc => den0 upd (BVar x (plain w) :: rho) acc)
+                (fun w u => match ext with Some e => den0 e (BVar x (plain w) :: rho) u | None => ([u], None) end)
+                ws s0)
+             ([], sx))
   end.
 
 End Den0.
@@ -313,6 +346,7 @@ Fixpoint ok0 (q : q0) : Prop :=
   | Z0Array q => ok0 q
   | Z0Reduce src x init upd => is_var_name x = true /\ ok0 src /\ ok0 init /\ ok0 upd
   | Z0Alt a b => ok0 a /\ ok0 b
+  | Z0Foreach src x init upd ext => is_var_name x = true /\ ok0 src /\ ok0 init /\ ok0 upd /\ match ext with Some e => ok0 e | None => True end
   | _ => True
   end.
 
@@ -326,6 +360,7 @@ Fixpoint need (q : q0) : nat :=
   | Z0Array q => 3 + need q
   | Z0Reduce src x init upd => 4 + Nat.max (need src) (Nat.max (need init) (need upd))
   | Z0Alt a b => 2 + Nat.max (need a) (need b)
+  | Z0Foreach src x init upd ext => 4 + Nat.max (need src) (Nat.max (need init) (Nat.max (need upd) (match ext with Some e => need e | None => 0 end)))
   | _ => 4
   end.
 
@@ -520,6 +555,23 @@ Proof.
   injection E as ->. eapply Hu. reflexivity.
 Qed.
 
+Lemma foreach_upd0_depth0 ext : (forall u, depth0 (ext u)) -> forall us acc, depth0 (fst (foreach_upd0 ext us acc)).
+Proof.
+  intros He. induction us as [|u r IH]; intros acc; cbn [foreach_upd0]; [intros d c val E; discriminate|].
+  specialize (He u). destruct (ext u) as [os [x|]]; [exact He|].
+  specialize (IH u). destruct (foreach_upd0 ext r u) as [[os' x] acc']. exact IH.
+Qed.
+
+Lemma foreach_fold0_depth0 upd ext : (forall w acc, depth0 (upd w acc)) -> (forall w u, depth0 (ext w u)) ->
+  forall ws acc, depth0 (foreach_fold0 upd ext ws acc).
+Proof.
+  intros Hu He. induction ws as [|w r IH]; intros acc; cbn [foreach_fold0]; [intros d c val E; discriminate|].
+  specialize (Hu w acc). destruct (upd w acc) as [us ux].
+  pose proof (foreach_upd0_depth0 (ext w) (He w) us acc) as HF.
+  destruct (foreach_upd0 (ext w) us acc) as [[os [x|]] acc']; [exact HF|].
+  destruct ux as [x|]; [exact Hu|]. apply depth0_rseq; [intros d c val E; discriminate|apply IH].
+Qed.
+
 Ltac triv0 := let E := fresh "E" in intros ? ? ? E; cbn in E; congruence.
 
 Fixpoint den0_depth0 (q : q0) : forall rho v, depth0 (den0 rs q rho v).
@@ -549,6 +601,11 @@ Proof.
   - pose proof (den0_depth0 q1 rho v) as IHa. destruct (den0 rs q1 rho v) as [ws [x|]].
     + intros d c val E. cbn in E. eapply IHa. exact E.
     + destruct (filter truthy ws); [apply den0_depth0|triv0].
+  - apply depth0_rbind; [apply den0_depth0|intros s0].
+    pose proof (den0_depth0 q1 rho v) as IHs. destruct (den0 rs q1 rho v) as [ws sx].
+    apply depth0_rseq; [|exact IHs].
+    apply foreach_fold0_depth0; [intros w acc; apply den0_depth0|].
+    intros w u. destruct ext as [e|]; [apply den0_depth0|triv0].
 Qed.
 
 Lemma sim_try a h : sim a -> match h with Some h => sim h | None => True end -> sim (Z0Try a h).
@@ -919,6 +976,222 @@ Proof.
       * cbn [fst snd]. rewrite ER'. f_equal. rewrite <- Hnid. destruct sR; reflexivity.
 Qed.
 
+(* ---- foreach: the state cell is a frame while extraction and consumer run ---- *)
+
+Definition inv_frame (Inv : sst -> Prop) (c : N) (s1 : sst) : Prop :=
+  exists fs cur s0, Inv s0 /\ nextid s0 = c /\ s1 = frames fs (fr1 (plain cur) s0).
+
+Lemma inv_frame_ok Inv c : inv_ok Inv -> inv_ok (inv_frame Inv c).
+Proof.
+  intros HI. split.
+  - intros s1 (fs & val & s0 & H0 & _ & ->). rewrite frames_repsens. cbn [fr1 repsens]. apply (proj1 HI). exact H0.
+  - intros s1 v1 (fs & cur & s0 & H0 & Hc & ->). exists (v1 :: fs), cur, s0. auto.
+Qed.
+
+Definition Ku (k2 : K) (c : N) : K := fun u ps' => set_cell c u ;; k2 u ps'.
+
+Lemma Ku_step Inv k2 w fs val s0 : inv_ok Inv -> K_ok Inv k2 -> Inv s0 ->
+  Ku k2 (nextid s0) (plain w) None (frames fs (fr1 val s0)) =
+  (fst (k2 (plain w) None s0), frames fs (fr1 (plain w) (snd (k2 (plain w) None s0)))).
+Proof.
+  intros HI Hk Hs. unfold Ku, bind. rewrite set_cell_frames.
+  rewrite (k_frames Inv k2 w fs (fr1 (plain w) s0) HI Hk) by (apply (proj2 HI); exact Hs).
+  rewrite (kg_fr _ _ Hk w s0 (plain w) Hs). reflexivity.
+Qed.
+
+Lemma Ku_ok Inv k2 c : inv_ok Inv -> K_ok Inv k2 -> K_ok (inv_frame Inv c) (Ku k2 c).
+Proof.
+  intros HI Hk. constructor.
+  - intros w s1 (fs & cur & s0 & H0 & <- & ->). rewrite (Ku_step Inv k2 w fs (plain cur) s0 HI Hk H0). cbn [snd].
+    exists fs, w, (snd (k2 (plain w) None s0)). split; [apply (kg_ok _ _ Hk); exact H0|]. split; [apply (kg_nid _ _ Hk); exact H0|reflexivity].
+  - intros w s1 (fs & cur & s0 & H0 & <- & ->). rewrite (Ku_step Inv k2 w fs (plain cur) s0 HI Hk H0). cbn [snd].
+    rewrite !frames_nextid. rewrite (kg_nid _ _ Hk w s0 H0). reflexivity.
+  - intros w s1 v1 (fs & cur & s0 & H0 & <- & ->).
+    change (fr1 v1 (frames fs (fr1 (plain cur) s0))) with (frames (v1 :: fs) (fr1 (plain cur) s0)).
+    rewrite (Ku_step Inv k2 w (v1 :: fs) (plain cur) s0 HI Hk H0), (Ku_step Inv k2 w fs (plain cur) s0 HI Hk H0). reflexivity.
+Qed.
+
+Lemma Ku_run Inv k2 e : inv_ok Inv -> K_ok Inv k2 -> forall ws acc s0, Inv s0 ->
+  exists acc', (forall fs, run_list (Ku k2 (nextid s0)) ws e (frames fs (fr1 (plain acc) s0)) =
+               (fst (run_list k2 ws e s0), frames fs (fr1 (plain acc') (snd (run_list k2 ws e s0))))) /\
+               (fst (run_list k2 ws e s0) = inl tt -> acc' = last ws acc).
+Proof.
+  intros HI Hk. induction ws as [|w r IH]; intros acc s0 H0; cbn [run_list].
+  - exists acc. split; [intros fs; destruct e; reflexivity|]. intros _. reflexivity.
+  - pose proof (kg_ok _ _ Hk w s0 H0) as H1. pose proof (kg_nid _ _ Hk w s0 H0) as H2.
+    destruct (k2 (plain w) None s0) as [[[]|x] s1] eqn:Ek2; cbn [fst snd] in *.
+    + destruct (IH w s1 H1) as [acc' [E1 E2]]. exists acc'. split.
+      * intros fs. unfold bind at 1. rewrite (Ku_step Inv k2 w fs (plain acc) s0 HI Hk H0). rewrite Ek2. cbn [fst snd].
+        unfold bind. rewrite Ek2. rewrite <- H2. apply E1.
+      * unfold bind. rewrite Ek2. intros E. rewrite (E2 E). rewrite last_cons. reflexivity.
+    + exists w. split.
+      * intros fs. unfold bind at 1. rewrite (Ku_step Inv k2 w fs (plain acc) s0 HI Hk H0). rewrite Ek2. cbn [fst snd].
+        unfold bind. rewrite Ek2. reflexivity.
+      * unfold bind. rewrite Ek2. intros E; discriminate.
+Qed.
+
+Lemma get_cell_frames fs val s0 :
+  get_cell (nextid s0) (frames fs (fr1 val s0)) = (inl val, frames fs (fr1 val s0)).
+Proof.
+  unfold get_cell.
+  assert (H : cell_lookup (cells (frames fs (fr1 val s0))) (nextid s0) = Some val).
+  { induction fs as [|f r IH]; cbn [frames fr1 cells cell_lookup].
+    - rewrite N.eqb_refl. reflexivity.
+    - assert (Hne : (nextid (frames r (fr1 val s0)) =? nextid s0)%N = false).
+      { apply N.eqb_neq. pose proof (frames_nextid_le r (fr1 val s0)) as H. cbn [fr1 nextid] in H. lia. }
+      rewrite Hne. exact IH. }
+  rewrite H. reflexivity.
+Qed.
+
+(* foreach_upd0 / foreach_fold0 in terms of rbind / rseq *)
+Lemma foreach_upd0_spec ext us acc :
+  fst (foreach_upd0 ext us acc) = rbind_list us ext /\
+  (snd (rbind_list us ext) = None -> snd (foreach_upd0 ext us acc) = last us acc).
+Proof.
+  revert acc. induction us as [|u r IH]; intros acc; cbn [foreach_upd0 rbind_list]; [split; reflexivity|].
+  destruct (ext u) as [os [x|]]; cbn [rseq fst snd].
+  - split; [reflexivity|]. intros E; discriminate.
+  - destruct (IH u) as [E1 E2]. destruct (foreach_upd0 ext r u) as [[os' x] acc']. cbn [fst snd] in *.
+    rewrite <- E1. cbn [fst snd]. split; [reflexivity|]. intros E. rewrite last_cons. apply E2. rewrite <- E1. exact E.
+Qed.
+
+Definition item_res (upd ext : jv -> jv -> result) (w acc : jv) : result := rbind (upd w acc) (ext w).
+
+Lemma foreach_fold0_cons upd ext w r acc :
+  foreach_fold0 upd ext (w :: r) acc =
+  rseq (item_res upd ext w acc) (foreach_fold0 upd ext r (last (fst (upd w acc)) acc)).
+Proof.
+  cbn [foreach_fold0]. unfold item_res, rbind. destruct (upd w acc) as [us ux]. cbn [fst snd].
+  destruct (foreach_upd0_spec (ext w) us acc) as [E1 E2].
+  destruct (foreach_upd0 (ext w) us acc) as [[os x] acc']. cbn [fst snd] in *. rewrite <- E1.
+  destruct x as [x|]; [reflexivity|]. destruct ux as [x|]; [reflexivity|].
+  cbn [rseq]. rewrite (E2 (f_equal snd (eq_sym E1)) ). reflexivity.
+Qed.
+
+
+Lemma rseq_assoc a b c : rseq (rseq a b) c = rseq a (rseq b c).
+Proof.
+  destruct a as [wa [xa|]]; [reflexivity|]. destruct b as [wb [xb|]]; cbn [rseq fst snd]; [reflexivity|].
+  rewrite app_assoc. reflexivity.
+Qed.
+
+Lemma run_rseq k a b s :
+  run_res k (rseq a b) s =
+  match snd a with
+  | None => (run_list k (fst a) None ;; run_res k b) s
+  | Some _ => run_res k a s
+  end.
+Proof.
+  destruct a as [wa [xa|]]; cbn [rseq fst snd]; [reflexivity|]. unfold run_res. cbn [fst snd]. apply run_list_app.
+Qed.
+
+Lemma sim_foreach src x init upd ext : is_var_name x = true -> sim src -> sim init -> sim upd ->
+  match ext with Some e => sim e | None => True end -> sim (Z0Foreach src x init upd ext).
+Proof.
+  intros Hx Hsrc Hinit Hupd Hext n rho v k s Inv Hn Hr HI Hk Hs. cbn [need] in Hn. do 4 (destruct n as [|n]; [lia|]).
+  destruct x as [|cx x]; [discriminate Hx|].
+  cbn [emb]. unfold eval_q, q_term. cbn [evals_n step ev_q step_eval_q push_defs fold_left ev_t step_eval_t rev app].
+  fold_eval.
+  set (upd0 := fun w acc => den0 rs upd (BVar (cx :: x) (plain w) :: rho) acc).
+  set (ext0 := fun w u => match ext with Some e => den0 rs e (BVar (cx :: x) (plain w) :: rho) u | None => ([u], None) end).
+  (* the continuation after the state was stored: extraction, then the consumer *)
+  set (Ek := fun (w : jv) (u : tv) (ps3 : pst) =>
+         match option_map emb ext with
+         | None => k u ps3
+         | Some e => eval_q bs (S (S n)) (BVar (cx :: x) (plain w) :: rho) e u ps3 k
+         end).
+  assert (HEk : forall w u s', Inv s' -> Ek w (plain u) None s' = run_res k (ext0 w u) s').
+  { intros w u s' Hs'. unfold Ek, ext0. destruct ext as [e|]; cbn [option_map].
+    - apply (Hext _ _ _ _ _ Inv); try assumption. lia.
+    - rewrite run_single. reflexivity. }
+  assert (HEkok : forall w, K_ok Inv (Ek w)) by (intros w; apply (K_ok_of_eq Inv k (Ek w) (ext0 w)); try assumption; apply HEk).
+  set (Kit := fun (c : N) (item : tv) (ps1 : pst) =>
+         ev_bindpat (step bs (step bs (evals_n bs n))) rho (Pattern (cx :: x) [] []) item ps1
+           (fun rho' ps2 => cur <- get_cell c ;;
+              eval_q bs (S (S n)) rho' (emb upd) cur ps2 (fun u ps3 =>
+                set_cell c u ;;
+                match option_map emb ext with
+                | None => k u ps3
+                | Some e => eval_q bs (S (S n)) rho' e u ps3 k
+                end))).
+  (* one item under the frame *)
+  assert (Hitem : forall w cur s0, Inv s0 ->
+            exists acc', (forall fs, Kit (nextid s0) (plain w) None (frames fs (fr1 (plain cur) s0)) =
+              (fst (run_res k (item_res upd0 ext0 w cur) s0),
+               frames fs (fr1 (plain acc') (snd (run_res k (item_res upd0 ext0 w cur) s0))))) /\
+              (fst (run_res k (item_res upd0 ext0 w cur) s0) = inl tt -> acc' = last (fst (upd0 w cur)) cur)).
+  { intros w cur s0 H0.
+    destruct (Ku_run Inv (Ek w) (snd (upd0 w cur)) HI (HEkok w) (fst (upd0 w cur)) cur s0 H0) as [acc' [E1 E2]].
+    assert (ER : run_list (Ek w) (fst (upd0 w cur)) (snd (upd0 w cur)) s0 = run_res k (item_res upd0 ext0 w cur) s0).
+    { rewrite (run_list_ext Inv _ (fun u _ => run_res k (ext0 w (fst u)))); [|apply HEkok|exact H0|intros u s' Hs'; apply HEk; exact Hs'].
+      rewrite (run_rbind k (ext0 w)). unfold item_res. destruct (upd0 w cur); reflexivity. }
+    exists acc'. split; [|rewrite <- ER; exact E2].
+    intros fs. unfold Kit. cbn [ev_bindpat step step_bind_pat].
+    unfold bind at 1. rewrite get_cell_frames.
+    change (fun (u : tv) (ps3 : pst) => set_cell (nextid s0) u;; match option_map emb ext with
+              | Some e => eval_q bs (S (S n)) (BVar (cx :: x) (plain w) :: rho) e u ps3 k | None => k u ps3 end)
+      with (Ku (Ek w) (nextid s0)).
+    rewrite (Hupd _ _ _ _ _ (inv_frame Inv (nextid s0))); [|lia|exact Hr|apply inv_frame_ok; exact HI|apply Ku_ok; [exact HI|apply HEkok]|exists fs, cur, s0; auto].
+    change (den0 rs upd (BVar (cx :: x) (plain w) :: rho) cur) with (upd0 w cur).
+    unfold run_res at 1. rewrite E1, ER. reflexivity. }
+  assert (HKit : forall c, K_ok (inv_frame Inv c) (Kit c)).
+  { intros c. constructor.
+    - intros w s1 (fs & cur & s0 & H0 & <- & ->).
+      destruct (Hitem w cur s0 H0) as [acc' [E1 _]]. rewrite E1. cbn [snd].
+      exists fs, acc', (snd (run_res k (item_res upd0 ext0 w cur) s0)).
+      split; [apply (run_list_ok Inv); assumption|]. split; [apply (run_list_nid Inv); assumption|reflexivity].
+    - intros w s1 (fs & cur & s0 & H0 & <- & ->).
+      destruct (Hitem w cur s0 H0) as [acc' [E1 _]]. rewrite E1. cbn [snd].
+      rewrite !frames_nextid. unfold run_res. rewrite (run_list_nid Inv k _ _ s0 Hk H0). reflexivity.
+    - intros w s1 v1 (fs & cur & s0 & H0 & <- & ->).
+      change (fr1 v1 (frames fs (fr1 (plain cur) s0))) with (frames (v1 :: fs) (fr1 (plain cur) s0)).
+      destruct (Hitem w cur s0 H0) as [a1 [E1 _]].
+      rewrite (E1 (v1 :: fs)), (E1 fs). reflexivity. }
+  (* all items, the cell on top *)
+  assert (Hitems : forall ws sx cur s0, Inv s0 ->
+            exists acc', run_list (Kit (nextid s0)) ws sx (fr1 (plain cur) s0) =
+              (fst (run_res k (rseq (foreach_fold0 upd0 ext0 ws cur) ([], sx)) s0),
+               fr1 (plain acc') (snd (run_res k (rseq (foreach_fold0 upd0 ext0 ws cur) ([], sx)) s0)))).
+  { intros ws sx. induction ws as [|w r IH]; intros cur s0 H0.
+    - exists cur. cbn [run_list foreach_fold0 rseq app fst snd]. unfold run_res. cbn [fst snd run_list]. destruct sx; reflexivity.
+    - cbn [run_list]. unfold bind at 1. destruct (Hitem w cur s0 H0) as [a1 [E1 F1]].
+      pose proof (E1 []) as E1'. cbn [frames] in E1'. rewrite E1'. clear E1'.
+      rewrite foreach_fold0_cons, rseq_assoc, run_rseq.
+      pose proof (run_list_ok Inv k (fst (item_res upd0 ext0 w cur)) (snd (item_res upd0 ext0 w cur)) s0 Hk H0) as Hok.
+      pose proof (run_list_nid Inv k (fst (item_res upd0 ext0 w cur)) (snd (item_res upd0 ext0 w cur)) s0 Hk H0) as Hni.
+      unfold run_res in *.
+      destruct (run_list k (fst (item_res upd0 ext0 w cur)) (snd (item_res upd0 ext0 w cur)) s0) as [[[]|xx] s1] eqn:ERi; cbn [fst snd] in *.
+      + specialize (F1 eq_refl). subst a1.
+        destruct (snd (item_res upd0 ext0 w cur)) as [x0|] eqn:Esn.
+        * exfalso. eapply (run_list_some_not_inl k (fst (item_res upd0 ext0 w cur)) x0 s0). try rewrite ERi. reflexivity.
+        * unfold bind. try rewrite ERi. rewrite <- Hni. apply IH. exact Hok.
+      + exists a1. destruct (snd (item_res upd0 ext0 w cur)) as [x0|] eqn:Esn.
+        * reflexivity.
+        * unfold bind. try rewrite ERi. reflexivity. }
+  set (F := fun w0 : jv => let '(ws, sx) := den0 rs src rho v in rseq (foreach_fold0 upd0 ext0 ws w0) ([], sx)).
+  set (K' := fun (s0 : tv) (ps0 : pst) =>
+         with_cell (scoped_ids ps0) s0 (fun c => eval_q bs (S (S n)) rho (emb src) (plain v) ps0 (Kit c)) (fun _ => ret tt)).
+  assert (HK' : forall w0 s', Inv s' -> K' (plain w0) None s' = run_res k (F w0) s').
+  { intros w0 s' Hs'. unfold K', with_cell. cbn [scoped_ids].
+    change (mkst (outs s') (nout s') (cap s') (nextid s' + 1)%N (inputs s') ((nextid s', plain w0) :: cells s') (repsens s') (steps s'))
+      with (fr1 (plain w0) s').
+    rewrite (Hsrc _ _ _ _ _ (inv_frame Inv (nextid s'))); [|lia|exact Hr|apply inv_frame_ok; exact HI|apply HKit|exists [], w0, s'; auto].
+    unfold run_res at 1.
+    destruct (Hitems (fst (den0 rs src rho v)) (snd (den0 rs src rho v)) w0 s' Hs') as [acc' E1]. rewrite E1.
+    unfold F. destruct (den0 rs src rho v) as [ws sx]. cbn [fst snd].
+    pose proof (run_list_nid Inv k (fst (rseq (foreach_fold0 upd0 ext0 ws w0) ([], sx))) (snd (rseq (foreach_fold0 upd0 ext0 ws w0) ([], sx))) s' Hk Hs') as Hnid.
+    unfold run_res in *.
+    destruct (run_list k (fst (rseq (foreach_fold0 upd0 ext0 ws w0) ([], sx))) (snd (rseq (foreach_fold0 upd0 ext0 ws w0) ([], sx))) s') as [[[]|xx] sR];
+      cbn [fst snd fr1 cells cell_lookup cell_remove outs nout cap nextid inputs repsens steps] in *; rewrite Hnid, N.eqb_refl.
+    - unfold ret. f_equal. rewrite <- Hnid. destruct sR; reflexivity.
+    - f_equal. rewrite <- Hnid. destruct sR; reflexivity. }
+  assert (HKok : K_ok Inv K') by (apply (K_ok_of_eq Inv k K' F); assumption).
+  change (eval_q bs (S (S n)) rho (emb init) (plain v) None K' s = run_res k (den0 rs (Z0Foreach src (cx :: x) init upd ext) rho v) s).
+  rewrite (Hinit _ _ _ _ _ Inv) by (try lia; assumption). unfold run_res at 1.
+  rewrite (run_list_ext Inv _ (fun x0 _ => run_res k (F (fst x0)))); try assumption.
+  rewrite (run_rbind k F). cbn [den0]. destruct (den0 rs init rho v); reflexivity.
+Qed.
+
 Lemma syn_depth_S : exists d, syn_depth = S d.
 Proof. eexists. vm_compute. reflexivity. Qed.
 
@@ -962,6 +1235,7 @@ Proof.
   - apply sim_array. apply sem_den0. exact H.
   - apply sim_reduce; [tauto|apply sem_den0; tauto|apply sem_den0; tauto|apply sem_den0; tauto].
   - apply sim_alt; apply sem_den0; tauto.
+  - apply sim_foreach; [tauto|apply sem_den0; tauto|apply sem_den0; tauto|apply sem_den0; tauto|destruct ext as [e|]; [apply sem_den0; tauto|exact I]].
 Qed.
 
 (* observation level: when the generator ends before the cap, the observation is the list *)
